@@ -39,9 +39,11 @@ def with_consumers(lines, quick):
 def cases(tier):
     quick = tier == "quick"
     out = []
-    for base in ("flat6", "mat23"):
+    for base in ("flat6", "mat23", "mat23F", "mat32F"):
         progs = []
         hs = (1, 2) if quick else (1, 2, 3)
+        if base in vp.F_ORDERED and not quick:
+            hs = (1, 2)
         for h in hs:
             for p in vp.programs(base, h, quick=(quick or h == 3), require_inplace=True):
                 progs += with_consumers(p, quick)
@@ -93,6 +95,7 @@ def twin_run(S, lines, cut=None):
     fam = []
     names = getattr(S, "ALL_NAMES", vp.TENSOR_NAMES + LEAVES)
     for i, ln in enumerate(lines):
+        shape_before = {n: A[n].shape for n in names if n in A and isinstance(A[n], np.ndarray)}
         if not graph_only(ln):
             vp.run_line(ln, A, twin=True)
         f = {}
@@ -101,7 +104,7 @@ def twin_run(S, lines, cut=None):
             # owner: assigning .shape to an OWNER re-creates it and its views (new version of the family); assigning
             # .shape to a view changes no version
             tg = A[vp._target_name(ln)]
-            if vp.ultimate(tg) is tg:
+            if vp.ultimate(tg) is tg and shape_before.get(vp._target_name(ln)) != tg.shape:  # assigning the same shape is a no-op
                 for n in names:
                     if n in A and isinstance(A[n], np.ndarray):
                         f[n] = bool(np.shares_memory(tg, A[n]))
@@ -136,7 +139,7 @@ def run_program(mg, base, lines, res, make_setup=None, invalid_backprop_ok=False
     engine.reset_fn = lib.reset_state
     if make_setup is None:
         shape = vp.BASES[base]
-        make_setup = lambda: vp.Setup(shape, mg)
+        make_setup = lambda: vp.Setup(shape, mg, f_ordered=base in vp.F_ORDERED)
 
     def body():
         S = make_setup()
@@ -229,17 +232,18 @@ def tgt(line):
     for s in ("[", ".", " "): h = h.split(s)[0]
     return h
 rng = np.random.RandomState(1)
-INIT = {"t": rng.rand(*%r) + 0.5, "y0": np.array(1.25), "yv": rng.rand(%d) + 0.5, "y2": rng.rand(2) + 0.5}
+INIT = {"t": ((rng.rand(*%r[::-1]) + 0.5).T if %r else rng.rand(*%r) + 0.5), "y0": np.array(1.25), "yv": rng.rand(%d) + 0.5, "y2": rng.rand(2) + 0.5}
 CONST = {"k": np.array(0.75), "c1": np.array(2.5), "c2": np.array(1.5), "q": [np.array(1.5), np.array(2.5), np.array(3.5)]}
 LINES = %r
 DESC = %r
 NAMES = ("t", "v", "w", "u")
 def twin(init, cut=None):
-    A = {"np": np}; A.update({k: v.copy() for k, v in init.items()}); A.update(CONST)
+    A = {"np": np}; A.update({k: v.copy(order="K") for k, v in init.items()}); A.update(CONST)
     hist = []
     if cut is not None and cut[1] < 0: A[cut[0]][...] = cut[2].reshape(A[cut[0]].shape)
     for i, ln in enumerate(LINES):
-        if "Mt" in ln: A["Mt"] = mask_for(A[tgt(ln)].shape)
+        if "Mt" in ln or "Mb" in ln: A["Mt"] = mask_for(A[tgt(ln)].shape); A["Mb"] = mask_for(A[tgt(ln)].shape[-1:])
+        sb = {n: A[n].shape for n in NAMES if n in A and isinstance(A[n], np.ndarray)}
         exec(ln.replace("mg.", "np."), A)
         for n in NAMES:
             if n in A and not isinstance(A[n], np.ndarray): A[n] = np.array(A[n])
@@ -249,14 +253,14 @@ def twin(init, cut=None):
         if ".shape =" in ln:
             tg_ = A[tgt(ln)]; ub = tg_
             while ub.base is not None: ub = ub.base
-            f = {n: bool(ub is tg_ and np.shares_memory(tg_, A[n])) for n in f}
+            f = {n: bool(ub is tg_ and sb.get(tgt(ln)) != tg_.shape and np.shares_memory(tg_, A[n])) for n in f}
         hist.append(({n: A[n].copy() for n in NAMES + ("y0", "yv", "y2") if n in A and isinstance(A[n], np.ndarray)}, f))
     return A, hist
 T = {"mg": mg, "np": np}; T.update({k: mg.Tensor(v) for k, v in INIT.items()}); T.update(CONST)
 bad = []
 try:
     for ln in LINES:
-        if "Mt" in ln: T["Mt"] = mask_for(T[tgt(ln)].shape)
+        if "Mt" in ln or "Mb" in ln: T["Mt"] = mask_for(T[tgt(ln)].shape); T["Mb"] = mask_for(T[tgt(ln)].shape[-1:])
         exec(ln, T)
     T["L"].backward()
 except Exception as e:
@@ -282,7 +286,7 @@ if not bad:
         if got.shape != num.shape or not np.allclose(got, num, rtol=1e-4, atol=1e-5): bad.append((n, "grad", got.tolist(), "reference", num.tolist()))
 print(bad)
 print('REPRODUCED' if bad else 'NOT-REPRODUCED'); sys.exit(1 if bad else 0)
-''' % (shape, shape[-1], list(lines),
+''' % (tuple(shape), base in vp.F_ORDERED, tuple(shape), shape[-1], list(lines),
        {i: sorted(descendants(lines[:i], vp._target_name(ln))) for i, ln in enumerate(lines) if ".shape =" in ln})
 
 
